@@ -64,9 +64,9 @@ def raises(G, name, exc, fn):
         G.fact(name, True, "raised %s" % type(e).__name__)
         return
     except Exception as e:  # noqa: BLE001
-        G.fact(name, False, "raised %s instead of %s" % (type(e).__name__, exc.__name__))
+        G.fact(name, False, "raised %s instead of %s" % (type(e).__name__, getattr(exc, "__name__", exc)))
         return
-    G.fact(name, False, "no exception (expected %s)" % exc.__name__)
+    G.fact(name, False, "no exception (expected %s)" % (getattr(exc, "__name__", exc),))
 
 
 def vmap(f, z):
@@ -220,11 +220,64 @@ def kron_einsum(B, G, k, l, p, q):
            O.re(zY[min(1, p - 1) if k * p > 1 and p == 1 else 0, 0] * zX[0, 0]) + 1)
 
 
+def zeros(B, G):
+    """operands with exact zero entries (0+0j): modulus, norms, products must give exact, finite results"""
+    import math
+    from qucumber.utils import cplx
+
+    O = B.O
+    vals = [(0, 0), (3, 4), (0, -2), (5, 0), (0, 0)]
+    x = B.tensor(np.array([[r for r, _ in vals], [i for _, i in vals]], dtype=object if B.symbolic else float))
+
+    def finite(name, fn):
+        try:
+            out = fn()
+        except ArithmeticError as e:
+            G.fact(name + ".finite", False, "undefined value: %s" % e)
+            return None
+        arr = np.asarray(B.scalars(out), dtype=object).reshape(-1)
+        if not B.symbolic:
+            okf = all(math.isfinite(float(v)) for v in arr)
+            G.fact(name + ".finite", okf, "values %s" % [float(v) for v in arr])
+            if not okf:
+                return None
+        else:
+            G.fact(name + ".finite", True, "")
+        return arr
+
+    a = finite("absolute_value(with zeros)", lambda: cplx.absolute_value(x))
+    if a is not None:
+        for k, (r, i) in enumerate(vals):
+            G.eq("absolute_value(with zeros)[%d]" % k, a[k], O.frac(int(round(math.hypot(r, i)))))
+    a = finite("norm(with zeros)", lambda: cplx.norm(x))
+    if a is not None:
+        G.eq("norm(with zeros)^2", a[0] ** 2, O.frac(sum(r * r + i * i for r, i in vals)))
+    z = B.tensor(np.zeros((2, 3), dtype=object if B.symbolic else float))
+    a = finite("absolute_value(zero vector)", lambda: cplx.absolute_value(z))
+    if a is not None:
+        for k in range(3):
+            G.eq("absolute_value(zero vector)[%d]" % k, a[k], O.frac(0))
+    a = finite("norm(zero vector)", lambda: cplx.norm(z))
+    if a is not None:
+        G.eq("norm(zero vector)", a[0], O.frac(0))
+    a = finite("scalar_mult(x, zero)", lambda: cplx.scalar_mult(x, B.tensor(np.zeros((2,), dtype=object if B.symbolic else float))))
+    if a is not None:
+        for k in range(len(a)):
+            G.eq("scalar_mult(x, zero)[%d]" % k, a[k], O.frac(0))
+    # vectors of different lengths are not an inner product
+    for (p_, q_) in ((1, 4), (5, 1), (3, 4), (4, 2)):
+        u = B.tensor(np.ones((2, p_), dtype=object if B.symbolic else float))
+        v = B.tensor(np.ones((2, q_), dtype=object if B.symbolic else float))
+        raises(G, "inner_prod.length_%d_vs_%d_rejected" % (p_, q_), (ValueError, RuntimeError), lambda u=u, v=v: cplx.inner_prod(u, v))
+    G.twin("twin_zero", B.scalars(cplx.absolute_value(x))[1], O.frac(4))
+
+
 def jobs(tier):
     J = []
     shapes = [(1, 1), (2, 3), (3, 1), (2, 2)] + ([(3, 3), (1, 3), (3, 2)] if tier != "quick" else [])
     for k, l in shapes:
         J.append(dict(name="basic-%dx%d" % (k, l), module="checks.c15", scenario="basic", kwargs=dict(k=k, l=l)))
+    J.append(dict(name="zeros", module="checks.c15", scenario="zeros", kwargs={}))
     ks = [(2, 1, 1, 3), (2, 2, 2, 2), (1, 2, 3, 1)] + ([(2, 3, 3, 2), (3, 3, 2, 2)] if tier != "quick" else [])
     for t in ks:
         J.append(dict(name="kron-%d%d%d%d" % t, module="checks.c15", scenario="kron_einsum", kwargs=dict(k=t[0], l=t[1], p=t[2], q=t[3])))
